@@ -8,6 +8,7 @@ import hashlib
 import io
 import os
 import pathlib
+import re
 import shutil
 
 from . import context
@@ -15,6 +16,7 @@ from .kernel import SimCrash, SimKill
 
 _real = {}
 _installed = False
+_TMP_RE = re.compile(r"\.\d+-\d+\.tmp$")  # pid/thread-id in temporary names must not reach the event log
 
 
 def _fs_for(path):
@@ -140,7 +142,7 @@ class SimFS:
         k = sim.kernel
         if self.dead and self._is_dead(k.current):
             raise SimCrash
-        k.yield_point(f"fs:{kind}:{rel}")
+        k.yield_point(f"fs:{kind}:{_TMP_RE.sub('.tmp', rel)}")
         if self.dead:
             if self._is_dead(k.current):
                 raise SimCrash
